@@ -415,6 +415,7 @@ type response struct {
 	pad     int // bytes of comment padding (body size limit)
 	served  bool
 	size    int
+	at      int64 // wall clock (ms) at which the handler picked this response
 }
 
 type seriesGen struct {
@@ -634,6 +635,7 @@ func (t *target) handler(w http.ResponseWriter, req *http.Request) {
 	}
 	resp.size = sb.Len()
 	resp.served = true
+	resp.at = now
 	t.served = append(t.served, resp)
 	t.mu.Unlock()
 
@@ -1142,8 +1144,21 @@ func analyse(c *core.Case, t *target, sess []*session, anyRemoved bool) stats {
 			b = idxOf[j]
 		}
 		cands := served[a+1 : b]
+		// The positional match is only trusted when the handler times fit: a scrape's report
+		// timestamp is taken before its request is sent (alignment only moves it backwards), so
+		// its response was picked at or after that time, before the next scrape started and
+		// within the scrape timeout (= interval).  Otherwise a scrape that failed before reaching
+		// the handler and one cut off by the shutdown can shift the match by one.
+		positional := len(cands) == j-i
+		for x := i; positional && x < j; x++ {
+			at := cands[x-i].at
+			if at < order[x].t || at > order[x].t+t.job.interval.Milliseconds() || (x+1 < len(order) && at >= order[x+1].t) {
+				positional = false
+				c.Count("positional_associations_rejected_by_handler_time", 1)
+			}
+		}
 		for x := i; x < j; x++ {
-			if len(cands) == j-i {
+			if positional {
 				assign[order[x]] = assignment{resp: cands[x-i], idx: a + 1 + x - i}
 			} else {
 				assign[order[x]] = assignment{idx: -1, cands: cands}
